@@ -193,6 +193,12 @@ func attributeTo(property string, v Violation, res *Result) (Violation, bool) {
 		if v.Check == "C02.no-fixed-point" && (v.Disc == "extra" || v.Disc == "missing") {
 			return Violation{Prop: "C01", Check: "C01.converged-ordinals", Disc: v.Disc, Step: v.Step, Detail: v.Detail}, true
 		}
+	case "C16":
+		// "a reconcile that fails is put back with backoff": a failed step that is
+		// swallowed makes the worker Forget the key instead
+		if v.Check == "C09.swallowed" {
+			return Violation{Prop: "C16", Check: "C16.queue-bookkeeping", Disc: "swallowed:" + v.Disc, Step: v.Step, Detail: v.Detail}, true
+		}
 	case "C11":
 		// a pause must be lossless: after it is lifted the set converges as if it
 		// had never been paused (the flags profile lifts every pause before quiesce)
